@@ -64,19 +64,24 @@ type dexOrd struct {
 }
 
 type dexStats struct {
-	rotations   map[uint64]int // chain -> rotations that applied receipts for an own locked batch (completed round trips)
-	swapsOK     int
-	swapsFailed int
-	swapsCapped int
-	withdrawals int
-	deposits    int
-	mismatchNop int
-	fallbacks   int
+	rotations        map[uint64]int // chain -> rotations that applied receipts for an own locked batch (completed round trips)
+	swapsOK          int
+	swapsFailed      int
+	swapsCapped      int
+	withdrawals      int
+	deposits         int
+	mismatchNop      int
+	fallbacks        int
+	capBatches       int // deposit batches that hit the provider cap
+	capRejected      int // newcomers rejected at the cap
+	evictions        int // incumbents replaced at the cap
+	capRejectedMulti int // rejected newcomers that had several deposits in the batch
 }
 
 type dexOracle struct {
 	orders map[string]*dexOrd // hex(order id)
 	lpDone map[string]int     // "<chain>/<hex(order id)>" -> times a withdrawal / deposit was executed on that chain
+	knownW map[string]bool    // order ids of the user withdrawals of the step being replayed (anything else is a forced eviction)
 	st     dexStats
 }
 
@@ -256,10 +261,22 @@ func (o *dexOracle) replayWithdrawals(cur *evCursor, ws []*lib.DexLiquidityWithd
 }
 
 // replayDeposits consumes the deposit events of one batch; x is the reserve that receives the deposits, y the other one.
-func (o *dexOracle) replayDeposits(cur *evCursor, ds []*lib.DexLiquidityDeposit, led *pointsLedger, x, y *big.Int, local bool, where string) (moved *big.Int, err error) {
+func (o *dexOracle) replayDeposits(cur *evCursor, ds []*lib.DexLiquidityDeposit, led *pointsLedger, x, y *big.Int, local bool, credits bigmap, where string) (moved *big.Int, err error) {
 	moved = new(big.Int)
 	if len(ds) == 0 || x.Sign() == 0 || y.Sign() == 0 {
 		return moved, nil
+	}
+	// newcomers = depositors without points; when they do not all fit under lib.MaxLiquidityProviders the documented cap rule
+	// applies (handleCappedBatchDeposit): incumbents first, then the best-funded newcomers; at the cap a newcomer either
+	// replaces the weakest provider (which is withdrawn 100%) or is rejected and gets ALL its deposits back
+	newcomers := map[string]bool{}
+	for _, d := range ds {
+		if led.pts[string(d.Address)] == nil && d.Amount > 0 {
+			newcomers[string(d.Address)] = true
+		}
+	}
+	if len(led.pts)+len(newcomers) > lib.MaxLiquidityProviders {
+		return o.replayCappedDeposits(cur, ds, newcomers, led, x, y, local, credits, where)
 	}
 	shares, distributed, total := map[string]*big.Int{}, new(big.Int), new(big.Int)
 	for _, d := range ds {
@@ -287,6 +304,187 @@ func (o *dexOracle) replayDeposits(cur *evCursor, ds []*lib.DexLiquidityDeposit,
 	return total, nil
 }
 
+// replayCappedDeposits consumes the events of a deposit batch that hits the provider cap. It does not re-decide who wins; it
+// checks what the property and the documented rule promise: deposits are applied per provider all-or-nothing; a newcomer is
+// only rejected or an incumbent only evicted when the ledger is full; the evicted provider is the weakest one, loses all its
+// points and is paid at most its share on both sides; the newcomer that replaces it holds more points than it did; a
+// rejected newcomer gets back exactly the sum of its deposits (origin side); the ledger never exceeds the cap.
+func (o *dexOracle) replayCappedDeposits(cur *evCursor, ds []*lib.DexLiquidityDeposit, newcomers map[string]bool, led *pointsLedger, x, y *big.Int, local bool, credits bigmap, where string) (*big.Int, error) {
+	o.st.capBatches++
+	moved := new(big.Int)
+	byID := map[string]int{}
+	for i, d := range ds {
+		byID[string(d.OrderId)] = i
+	}
+	applied := make([]bool, len(ds))
+	self, other := x, y // reserves paying LocalAmount / RemoteAmount of an eviction
+	if !local {
+		self, other = y, x
+	}
+	type group struct {
+		key         string
+		shares      map[string]*big.Int
+		distributed *big.Int
+		total       *big.Int
+	}
+	var g *group
+	var evictedPts *big.Int
+	flush := func() error {
+		if g == nil {
+			return nil
+		}
+		led.mint(x, y, g.total, g.shares, g.distributed)
+		x.Add(x, g.total)
+		moved.Add(moved, g.total)
+		if len(led.pts) > lib.MaxLiquidityProviders {
+			return fmt.Errorf("%s: %d liquidity providers after a deposit, cap %d", where, len(led.pts), lib.MaxLiquidityProviders)
+		}
+		if evictedPts != nil {
+			if g.key == "incumbents" || g.distributed.Cmp(evictedPts) <= 0 {
+				return fmt.Errorf("%s: a provider with %s points was evicted for a newcomer that received %s points", where, evictedPts, g.distributed)
+			}
+			evictedPts = nil
+		}
+		g = nil
+		return nil
+	}
+	for {
+		e := cur.peek()
+		if e == nil {
+			break
+		}
+		if de := e.GetDexLiquidityDeposit(); de != nil {
+			i, ok := byID[string(de.OrderId)]
+			if !ok || applied[i] || de.LocalOrigin != local {
+				break
+			}
+			d := ds[i]
+			if de.Amount != d.Amount {
+				return nil, fmt.Errorf("%s: deposit event %x amount %d, batch says %d", where, d.OrderId, de.Amount, d.Amount)
+			}
+			if err := o.once(where, d.OrderId, "deposit"); err != nil {
+				return nil, err
+			}
+			key := "incumbents"
+			if newcomers[string(d.Address)] {
+				key = string(d.Address)
+			}
+			if g != nil && g.key != key {
+				if err := flush(); err != nil {
+					return nil, err
+				}
+			}
+			if g == nil {
+				g = &group{key: key, shares: map[string]*big.Int{}, distributed: new(big.Int), total: new(big.Int)}
+			}
+			if g.shares[string(d.Address)] == nil {
+				g.shares[string(d.Address)] = new(big.Int)
+			}
+			g.shares[string(d.Address)].Add(g.shares[string(d.Address)], u(de.Points))
+			g.distributed.Add(g.distributed, u(de.Points))
+			g.total.Add(g.total, u(d.Amount))
+			applied[i] = true
+			o.st.deposits++
+			cur.next()
+			continue
+		}
+		if wd := e.GetDexLiquidityWithdrawal(); wd != nil && !o.knownW[string(wd.OrderId)] {
+			// forced withdrawal of the weakest provider: it is immediately followed by the deposit of the newcomer that replaces it;
+			// if that deposit is not one of this batch the eviction belongs to the next phase of the step
+			if cur.i+1 >= len(cur.evs) || cur.evs[cur.i+1].GetDexLiquidityDeposit() == nil {
+				return nil, fmt.Errorf("%s: a provider was evicted but no newcomer deposit follows (next event %v)", where, cur.evs[min(cur.i+1, len(cur.evs)-1)])
+			}
+			if nd := cur.evs[cur.i+1].GetDexLiquidityDeposit(); nd.LocalOrigin != local {
+				break
+			} else if j, ok := byID[string(nd.OrderId)]; !ok || applied[j] {
+				break
+			}
+			if err := flush(); err != nil {
+				return nil, err
+			}
+			hp := led.pts[string(e.Address)]
+			if hp == nil || bytes.Equal(e.Address, deadAddress) {
+				return nil, fmt.Errorf("%s: eviction of %x which holds no points (or is the dead address)", where, e.Address)
+			}
+			if len(led.pts) < lib.MaxLiquidityProviders {
+				return nil, fmt.Errorf("%s: provider %x evicted although only %d of %d provider slots are taken", where, e.Address, len(led.pts), lib.MaxLiquidityProviders)
+			}
+			for a, p := range led.pts {
+				if a != string(deadAddress) && p.Cmp(hp) < 0 {
+					return nil, fmt.Errorf("%s: provider %x (%s points) evicted although %x holds only %s", where, e.Address, hp, a, p)
+				}
+			}
+			burned := u(wd.PointsBurned)
+			if burned.Cmp(hp) != 0 || wd.Percent != 100 {
+				return nil, fmt.Errorf("%s: eviction of %x burned %s of its %s points (%d%%)", where, e.Address, burned, hp, wd.Percent)
+			}
+			if lim := mulDivFloor(self, burned, led.total); u(wd.LocalAmount).Cmp(lim) > 0 {
+				return nil, fmt.Errorf("%s: evicted provider %x paid %d, more than its share %s", where, e.Address, wd.LocalAmount, lim)
+			}
+			if lim := mulDivFloor(other, burned, led.total); u(wd.RemoteAmount).Cmp(lim) > 0 {
+				return nil, fmt.Errorf("%s: evicted provider %x counter amount %d, more than its share %s", where, e.Address, wd.RemoteAmount, lim)
+			}
+			if mulDivFloor(self, burned, led.total).Sign() > 0 && wd.LocalAmount == 0 {
+				return nil, fmt.Errorf("%s: evicted provider %x lost %s points worth %s and was paid nothing", where, e.Address, burned, mulDivFloor(self, burned, led.total))
+			}
+			credits.add(e.Address, u(wd.LocalAmount))
+			self.Sub(self, u(wd.LocalAmount))
+			other.Sub(other, u(wd.RemoteAmount))
+			led.total.Sub(led.total, burned)
+			delete(led.pts, string(e.Address))
+			evictedPts = burned
+			o.st.evictions++
+			cur.next()
+			continue
+		}
+		break
+	}
+	if err := flush(); err != nil {
+		return nil, err
+	}
+	if evictedPts != nil {
+		return nil, fmt.Errorf("%s: a provider was evicted but no newcomer took its place", where)
+	}
+	// deposits without event: rejected newcomers (all deposits of the provider or none)
+	refunds := map[string]*big.Int{}
+	nDeps := map[string]int{}
+	some := map[string]bool{}
+	for i, d := range ds {
+		if applied[i] {
+			some[string(d.Address)] = true
+		}
+	}
+	for i, d := range ds {
+		if applied[i] {
+			continue
+		}
+		if !newcomers[string(d.Address)] {
+			return nil, fmt.Errorf("%s: deposit %x of an existing provider was not applied", where, d.OrderId)
+		}
+		if some[string(d.Address)] {
+			return nil, fmt.Errorf("%s: the deposits of newcomer %x were applied only in part", where, d.Address)
+		}
+		if len(led.pts) < lib.MaxLiquidityProviders {
+			return nil, fmt.Errorf("%s: newcomer %x rejected although only %d of %d provider slots are taken", where, d.Address, len(led.pts), lib.MaxLiquidityProviders)
+		}
+		if refunds[string(d.Address)] == nil {
+			refunds[string(d.Address)] = new(big.Int)
+		}
+		refunds[string(d.Address)].Add(refunds[string(d.Address)], u(d.Amount))
+		nDeps[string(d.Address)]++
+	}
+	for a, v := range refunds {
+		o.st.capRejected++
+		if nDeps[a] > 1 {
+			o.st.capRejectedMulti++
+		}
+		if local {
+			credits.add([]byte(a), v) // the whole escrowed amount goes back
+		}
+	}
+	return moved, nil
+}
+
 // replay checks one DEX step of chain `self` (counter chain `counter`) and returns the expected account credits.
 func (o *dexOracle) replay(self, counter, h uint64, pre, post *chainsim.RawState, in *dexInput, evs []*lib.Event, credits bigmap) error {
 	liq := counter + fsm.LiquidityPoolAddend
@@ -310,6 +508,14 @@ func (o *dexOracle) replay(self, counter, h uint64, pre, post *chainsim.RawState
 	}
 	R := in.remote
 	L := pre.Locked[counter]
+	o.knownW = map[string]bool{}
+	for _, b := range []*lib.DexBatch{L, R} {
+		if b != nil {
+			for _, w := range b.Withdrawals {
+				o.knownW[string(w.OrderId)] = true
+			}
+		}
+	}
 	led := ledgerOf(pre.Pools[liq])
 	answered := in.fallback && !batchEmpty(L) && bytes.Equal(L.ReceiptHash, batchHash(R))
 	if in.fallback {
@@ -411,7 +617,7 @@ func (o *dexOracle) replay(self, counter, h uint64, pre, post *chainsim.RawState
 			if err := o.replayWithdrawals(cur, L.Withdrawals, led, pool, mirror, credits, where+" own withdrawals"); err != nil {
 				return err
 			}
-			if _, err := o.replayDeposits(cur, L.Deposits, led, pool, mirror, true, where+" own deposits"); err != nil {
+			if _, err := o.replayDeposits(cur, L.Deposits, led, pool, mirror, true, credits, where+" own deposits"); err != nil {
 				return err
 			}
 			o.st.rotations[self]++
@@ -506,7 +712,7 @@ func (o *dexOracle) replay(self, counter, h uint64, pre, post *chainsim.RawState
 		if err := o.replayWithdrawals(cur, R.Withdrawals, led, pool, mirror, credits, where+" counter withdrawals"); err != nil {
 			return err
 		}
-		if _, err := o.replayDeposits(cur, R.Deposits, led, mirror, pool, false, where+" counter deposits"); err != nil {
+		if _, err := o.replayDeposits(cur, R.Deposits, led, mirror, pool, false, credits, where+" counter deposits"); err != nil {
 			return err
 		}
 	}
